@@ -189,8 +189,10 @@ static void xml_show_skip(TestReporter *reporter, const char *file, int line) {
     output = concat(output, indent(reporter));
     output = concat(output, "\t<skipped />\n");
 
-    fseek(child_output_tmpfile,0,SEEK_SET);
+    /* append: the test's own process may already have written to the file */
     fputs(output, child_output_tmpfile);
+    fflush(child_output_tmpfile);
+    output[0] = '\0';
 }
 
 static void xml_concat_escaped_message(const char *message, va_list arguments) {
@@ -240,8 +242,10 @@ static void xml_show_fail(TestReporter *reporter, const char *file, int line, co
     output = concat(output, indent(reporter));
     output = concat(output, "</failure>\n");
 
-    fseek(child_output_tmpfile,0,SEEK_SET);
+    /* append: the test's own process may already have written to the file */
     fputs(output, child_output_tmpfile);
+    fflush(child_output_tmpfile);
+    output[0] = '\0';
 }
 
 static void xml_show_incomplete(TestReporter *reporter, const char *filename, int line, const char *message, va_list arguments) {
@@ -259,8 +263,10 @@ static void xml_show_incomplete(TestReporter *reporter, const char *filename, in
     output = concat(output, indent(reporter));
     output = concat(output, "</error>\n");
 
-    fseek(child_output_tmpfile,0,SEEK_SET);
+    /* append: the test's own process may already have written to the file */
     fputs(output, child_output_tmpfile);
+    fflush(child_output_tmpfile);
+    output[0] = '\0';
 }
 
 
